@@ -136,7 +136,9 @@ def one_case(args):
     readers = [("plain", {}, [["loadall"]] + [["call", a] for a in probes]),
                ("plain_rev", {}, [["call", a] for a in reversed(probes)]),
                ("shelve", {}, [["shelve", a] for a in probes]),
-               ("expires", {"expires": 1000}, [["call", a] for a in probes])]
+               ("expires", {"expires": 1000}, [["call", a] for a in probes]),
+               # the same with the messages of a verbose Memory on (they are built from the stored metadata)
+               ("shelve_verbose", {"verbose": 11}, [["shelve", a] for a in probes])]
     if target[1].get("compress"):
         readers = [(n, dict(o, compress=True), ops) for n, o, ops in readers]
     for rname, ropts, rops in readers:
